@@ -196,6 +196,14 @@ def rule_ow_conn(cx, rep, port='py'):
                 for it in x.items:
                     if (dotted(it.context_expr) or '') in conn:
                         bad = (x, '`with {}:` in {} commits or rolls back the caller\'s open transaction'.format(dotted(it.context_expr), fd.name))
+            if isinstance(x, (ast.Assign, ast.AugAssign, ast.Delete)):
+                tg_ = x.targets if isinstance(x, (ast.Assign, ast.Delete)) else [x.target]
+                for t_ in tg_:
+                    for y in ([t_] + (list(t_.elts) if isinstance(t_, (ast.Tuple, ast.List)) else [])):
+                        if isinstance(y, ast.Attribute) and (dotted(y.value) or '') in conn:
+                            bad = bad or (x, '{} sets `{}` on the caller\'s connection and the setting outlives the query (text_factory / row_factory / isolation_level change what every later user of the connection reads)'.format(fd.name, dotted(y)))
+            if isinstance(x, ast.Call) and dotted(x.func) == 'setattr' and x.args and (dotted(x.args[0]) or '') in conn:
+                bad = bad or (x, '{} sets an attribute of the caller\'s connection with setattr()'.format(fd.name))
             if isinstance(x, ast.Call) and isinstance(x.func, ast.Attribute) and (dotted(x.func.value) or '') in conn:
                 n += 1
                 if x.func.attr not in ('cursor',):
